@@ -2,7 +2,7 @@
 # Build the overlay venv used by every check (offline, idempotent).
 set -e
 cd "$(dirname "$0")"
-V=/verif/.venv
+V="${VERIF_VENV:-$(pwd)/.venv}"
 if [ ! -x $V/bin/python ] || ! $V/bin/python -c "import z3, xdsl" 2>/dev/null; then
   rm -rf $V
   /venv/bin/python -m venv $V
